@@ -787,3 +787,98 @@ def explain(DD, e, v, path=()):
                 best = r
         return best or (path, k)
     return path, k
+
+
+def defs_on_path(term, root, path):
+    """Definition ids the path crosses in the schema term (references followed from the root object; segments are field names,
+    "#i" for array items, map keys). Used to attribute a failure to the objects it concerns (witness classes only)."""
+    S = {d["name"]: d["t"] for d in term["defs"]}
+    crossed = [root] if root in S else []
+    t = S.get(root)
+
+    def enter(t):
+        hops = 0
+        while t is not None and t["k"] in ("ref", "nullable") and hops < 32:
+            if t["k"] == "ref":
+                crossed.append(t["name"])
+                t = S.get(t["name"])
+            else:
+                t = t["t"]
+            hops += 1
+        return t
+    for seg in path:
+        t = enter(t)
+        if t is None:
+            break
+        k = t["k"]
+        if k == "struct":
+            f = [f for f in t["fields"] if f["n"] == seg]
+            t = f[0]["t"] if f else None
+        elif k in ("arr", "map"):
+            t = t["t"]
+        elif k == "dunion":
+            nxt = None
+            for r in t["refs"]:
+                b = S.get(r)
+                if b is not None and b["k"] == "struct" and any(f["n"] == seg for f in b["fields"]):
+                    crossed.append(r)
+                    nxt = [f for f in b["fields"] if f["n"] == seg][0]["t"]
+                    break
+            t = nxt
+        else:
+            t = None
+    enter(t)
+    return crossed
+
+
+def inter_places(ir, main_pkg):
+    """Places of the raw IR (c12-ir projection) that are intersections, as Diffs paths: (object own name, field names, "#" for
+    array items, "*" for map values, "|i" for union branches). Witness classes only."""
+    out = set()
+
+    def walk(t, path):
+        k = t.get("k")
+        if k == "inter":
+            out.add(path)
+        elif k == "struct":
+            for f in t["fields"]:
+                walk(f["type"], path + (f["name"],))
+        elif k == "array":
+            walk(t["elem"], path + ("#",))
+        elif k == "map":
+            walk(t["elem"], path + ("*",))
+        elif k == "disj":
+            for i, b in enumerate(t["branches"]):
+                walk(b, path + ("|%d" % (i + 1),))
+    for s in ir:
+        for o in s["objects"]:
+            walk(o["type"], (o["name"],))
+    return out
+
+
+def under(places, path):
+    return any(tuple(path[:n]) in places for n in range(1, len(path) + 1))
+
+
+def field_kind(exp, path):
+    """Kind of the expected E-term at a Diffs path (nullable stripped): type enum ref arr map obj anyOf any."""
+    e = None
+    for d in exp:
+        if d["name"] == path[0]:
+            e = d["t"]
+            break
+    for seg in path[1:]:
+        if e is None:
+            return "?"
+        e = _strip(e)
+        if e["k"] == "obj":
+            m = [f for f in e["props"] if f["n"] == seg]
+            e = m[0]["t"] if m else None
+        elif e["k"] in ("arr", "map"):
+            e = e["t"]
+        elif e["k"] == "anyOf" and seg.startswith("|"):
+            i = int(seg[1:]) - 1
+            e = e["ts"][i] if i < len(e["ts"]) else None
+        else:
+            e = None
+    return _strip(e)["k"] if e is not None else "?"
